@@ -26,7 +26,8 @@ pub fn icao_u32(i: &ICAO) -> u32 {
 fn cap(c: &Capability) -> V {
     V::U(match c {
         Capability::AG_UNCERTAIN => 0,
-        Capability::Reserved(v) => u64::from(*v),
+        // the catch-all variant is told apart from the named ones: 0x100 + carried value
+        Capability::Reserved(v) => 0x100 + u64::from(*v),
         Capability::AG_GROUND => 4,
         Capability::AG_AIRBORNE => 5,
         Capability::AG_UNCERTAIN2 => 6,
@@ -44,7 +45,7 @@ fn dr(d: &DownlinkRequest) -> V {
         DownlinkRequest::RequestSendCommB => 1,
         DownlinkRequest::CommBBroadcastMsg1 => 4,
         DownlinkRequest::CommBBroadcastMsg2 => 5,
-        DownlinkRequest::Unknown(v) => u64::from(*v),
+        DownlinkRequest::Unknown(v) => 0x100 + u64::from(*v),
     })
 }
 
